@@ -86,9 +86,9 @@ def gen_block(r, name, scripts, use_ai=True, use_lua=True, max_rules=4, force=No
             if models.line_count(content, e) is not None:
                 expected.append(("line-count", sev_num))
         elif k == "check-lua":
-            which = r.choice(["const", "nil", "fresh"] if "fresh" in scripts else ["const", "nil"])
+            which = r.choice([k for k in ("const", "nil", "fresh", "slow") if k in scripts])
             attrs.append(("check-lua", scripts[which]))
-            if which == "const":
+            if which in ("const", "slow"):
                 expected.append(("check-lua", sev_num))
         elif k == "check-ai":
             ai_token = "tok-" + name
